@@ -165,6 +165,8 @@ type stubChain struct {
 	headCh  chan<- core.ChainHeadEvent
 	sub     *stubSub
 	maxTxWS uint64
+	db      ethdb.Database // the pool's database (UTXO set size per block)
+	term    *types.WorkObject
 }
 
 func newStubChain(logger *log.Logger, bal [nAcc]int64, gasLimit uint64, baseFee int64) *stubChain {
@@ -175,9 +177,17 @@ func newStubChain(logger *log.Logger, bal [nAcc]int64, gasLimit uint64, baseFee 
 	for i := range st {
 		st[i] = acctState{0, big.NewInt(bal[i])}
 	}
+	// the "prime terminus" every block points to (Qi fee computations read its exchange rate)
+	c.term = types.EmptyZoneWorkObject()
+	c.term.Header().SetExchangeRate(big.NewInt(1))
+	c.term.WorkObjectHeader().SetNonce(types.EncodeNonce(0xffff))
+	c.blocks[c.term.Hash()] = &blockRec{wo: c.term, num: 0}
 	c.head.Store(c.makeBlock(nil, st, nil, gasLimit, baseFee))
 	return c
 }
+
+// finishGenesis records the UTXO set size of the first block once the pool's database is known.
+func (c *stubChain) finishGenesis() { rawdb.WriteUTXOSetSize(c.db, c.head.Load().wo.Hash(), 1000) }
 
 // makeBlock builds (and registers) a block on parent with the given post-state.
 func (c *stubChain) makeBlock(parent *blockRec, st [nAcc]acctState, txs []*types.Transaction, gasLimit uint64, baseFee int64) *blockRec {
@@ -201,6 +211,9 @@ func (c *stubChain) makeBlock(parent *blockRec, st [nAcc]acctState, txs []*types
 	wo.Header().SetEVMRoot(root)
 	wo.Header().SetGasLimit(gasLimit)
 	wo.Header().SetBaseFee(big.NewInt(baseFee))
+	wo.Header().SetPrimeTerminusHash(c.term.Hash())
+	wo.Header().SetExchangeRate(big.NewInt(1))
+	wo.WorkObjectHeader().SetDifficulty(big.NewInt(1_000_000))
 	wo.Body().SetTransactions(txs)
 	num := uint64(1)
 	if parent != nil {
@@ -213,6 +226,9 @@ func (c *stubChain) makeBlock(parent *blockRec, st [nAcc]acctState, txs []*types
 	wo.WorkObjectHeader().SetHeaderHash(wo.Header().Hash())
 	b := &blockRec{wo: wo, parent: parent, num: num, accts: st}
 	c.blocks[wo.Hash()] = b
+	if c.db != nil {
+		rawdb.WriteUTXOSetSize(c.db, wo.Hash(), 1000)
+	}
 	return b
 }
 
